@@ -15,3 +15,6 @@ import PyodaProofs.C16
 #print axioms Pyoda.C16.nextOrSame_spec
 #print axioms Pyoda.C16.previousOrSame_spec
 #print axioms Pyoda.C16.nthWeekday_spec
+#print axioms Pyoda.C16.pyIsoWeek1Monday_eq
+#print axioms Pyoda.C16.iso_rule_matches_isocalendar
+#print axioms Pyoda.C16.iso_matches_isocalendar_gregorian
